@@ -1,68 +1,3 @@
-// ---- spec/x86_contracts.rs : vocabulary used by the x86-64 contract files ----
-pub open spec fn T_TEMP() -> Temporary { Temporary::Register(Register(1)) }
-
-/// `t := v`, nothing else changes except the scratch register rcx and the flags
-pub open spec fn upd(o: Seq<Code>, n: Seq<Code>, s: St, t: Temporary, v: u64) -> bool {
-    &&& eqv_t(run(n, s), set(run(o, s), t, v))
-    &&& get(run(n, s), t) == v
-}
-
-pub open spec fn tn(n: TemporaryNumber) -> int {
-    match n { TemporaryNumber::Fst => 0, TemporaryNumber::Snd => 1 }
-}
-
-/// System V AMD64 integer argument registers in this register numbering: rdi rsi rdx rcx r8 r9
-pub open spec fn sysv_arg(k: int) -> Register {
-    if k == 0 { Register(7) } else if k == 1 { Register(6) } else if k == 2 { Register(5) }
-    else if k == 3 { Register(1) } else if k == 4 { Register(8) } else { Register(9) }
-}
-
-/// position -> temporary: 12 register positions (registers 4..15), then spill slots 1..255
-pub open spec fn tfp(p: int) -> Temporary {
-    if p + 4 < 16 { Temporary::Register(Register((p + 4) as usize)) } else { Temporary::Spill(Spill((p - 11) as usize)) }
-}
-
-pub proof fn lemma_tfp_injective(p: int, q: int)
-    requires 0 <= p < 267, 0 <= q < 267, tfp(p) == tfp(q),
-    ensures p == q,
-{
-}
-
-/// index of the first binding whose variable has the given id
-pub open spec fn first_index(b: Seq<ContextBinding>, id: usize) -> int
-    decreases b.len(),
-{
-    if b.len() == 0 { 0 } else if b[0].var.id == id { 0 } else { 1 + first_index(b.subrange(1, b.len() as int), id) }
-}
-
-/// the last instruction is an indirect jump through a register holding `target`
-pub open spec fn jumps_to(c: Code, s: St, target: u64) -> bool {
-    match c {
-        Code::JMP(r) => reg_ok(r) && rd(s, r) == target,
-        _ => false,
-    }
-}
-
-pub open spec fn is_fixed_jump(c: Code) -> bool { c is JMPLN }
-
-pub open spec fn tmp_reg_set(t: Temporary) -> ISet<int> {
-    match t {
-        Temporary::Register(r) => iset![r.0 as int],
-        Temporary::Spill(_) => ISet::<int>::empty(),
-    }
-}
-
-/// operand discipline under which the idiv-based sequences of `div`/`rem` are correct: the target is
-/// distinct from both sources and is neither rax nor rdx nor the scratch register, no source lives
-/// in rax or in the scratch register (the call site passes second-slot temporaries of distinct variables)
-pub open spec fn divrem_operands(t: Temporary, s1: Temporary, s2: Temporary) -> bool {
-    &&& valid_tmp(t) && valid_tmp(s1) && valid_tmp(s2)
-    &&& t != s1 && t != s2
-    &&& t != Temporary::Register(Register(4)) && t != Temporary::Register(Register(5)) && t != T_TEMP()
-    &&& s1 != Temporary::Register(Register(4)) && s2 != Temporary::Register(Register(4))
-    &&& s1 != T_TEMP() && s2 != T_TEMP()
-}
-
 // ---- registers evacuated around a call (C13) -----------------------------------------------------
 pub open spec fn is_ext(b: ContextBinding) -> bool { b.chi == Chirality::Ext }
 
@@ -138,5 +73,31 @@ pub proof fn lemma_expected_saves(ctx: Seq<ContextBinding>, k: int)
                 }
             }
         }
+    }
+}
+
+/// X0, X1 always; X(29) (the link register) when the register file is full
+pub open spec fn a64_prefix(len: int) -> Seq<usize> {
+    if 2 * len + 4 >= 30 { seq![0usize, 1usize, 29usize] } else { seq![0usize, 1usize] }
+}
+
+pub proof fn lemma_a64_prefix(ctx: Seq<ContextBinding>, k: int)
+    requires 0 <= k <= ctx.len(), k <= 1000,
+    ensures
+        (a64_prefix(ctx.len() as int) + expected_saves(ctx, k)).contains(0usize),
+        (a64_prefix(ctx.len() as int) + expected_saves(ctx, k)).contains(1usize),
+        2 * ctx.len() + 4 > 29 ==> (a64_prefix(ctx.len() as int) + expected_saves(ctx, k)).contains(29usize),
+        forall|x: usize| expected_saves(ctx, k).contains(x) ==> #[trigger] (a64_prefix(ctx.len() as int) + expected_saves(ctx, k)).contains(x),
+{
+    let p = a64_prefix(ctx.len() as int);
+    let e = expected_saves(ctx, k);
+    assert((p + e)[0] == 0usize);
+    assert((p + e)[1] == 1usize);
+    if 2 * ctx.len() + 4 > 29 {
+        assert((p + e)[2] == 29usize);
+    }
+    assert forall|x: usize| e.contains(x) implies #[trigger] (p + e).contains(x) by {
+        let w = choose|w: int| 0 <= w < e.len() && e[w] == x;
+        assert((p + e)[p.len() + w] == x);
     }
 }
